@@ -1,9 +1,11 @@
 """C05 — listings only advertise what the server will serve (link closure)."""
+import email
 import html
 import os
 import re
 
 from common import Check, impl_run_parallel
+import c05gen
 import gen
 import pgsite
 import trees
@@ -165,6 +167,90 @@ def judge_page(p):
     return why
 
 
+def _tokens(text):
+    return sorted(set(c05gen.TOKEN.findall(text)))
+
+
+def judge_message(p):
+    """A folder listing showed `name` for this link: why the document served is not that message (None when it is).
+    Generated messages carry a unique token in their Subject and `body-of-<token>` as the first body line; a message the
+    generator did not plan (a fragment one reader splits off) has no token in its title and must have none in its Subject."""
+    v = V.validate(p["proto"], p["out"].encode("latin-1"))
+    body = v["body"].replace(b"\r\n", b"\n")
+    if p["proto"] == "wap":
+        # a text document is shown as one WML card: escaped lines, a new paragraph for every empty line
+        m = re.search(rb'<card id="index" title="Text File" newcontext="true">\n<p>\n(.*)</p>\n</card>\n</wml>\n$', body, re.S)
+        if not m:
+            return "the document is not a WML text card"
+        body = html.unescape(m.group(1).replace(b"</p>\n<p>", b"\n").decode("latin-1")).encode("latin-1", "replace")
+    shown = _tokens(p["name"] or "")
+    subj = email.message_from_bytes(body).get("Subject")
+    got = _tokens(re.sub(r"\s+", " ", str(subj))) if subj is not None else []
+    if shown != got:
+        return "the listing announced %s as item %s of %s, the document served has %s" % (
+            "the message with token %s in its Subject" % shown[0] if shown else "a message without a generated Subject (%r)" % p["name"],
+            p["index"], p["of"], "Subject %r" % str(subj) if subj is not None else "no Subject header")
+    for t in shown:
+        if "bare " + t not in p["name"] and ("body-of-" + t).encode() not in body:
+            return "the document served for the message announced as %r has its Subject but not its body (no 'body-of-%s')" % (p["name"], t)
+    return None
+
+
+def mail_leg(chk, tier):
+    """Mailbox content on which two readers of one file can disagree about message boundaries and numbering (c05gen.py):
+    every folder of the directory, every item of every folder listing, in every protocol.  -> (found, coverage)"""
+    rng = chk.rng
+    tree, top, what = c05gen.mail_world(rng, tier)
+    job = {"op": "c05_folders", "tree": tree, "config": trees.SITE_CONFIG, "top": top, "long": 40,
+           "follow_all": ["gopher"] if tier == "quick" else ["gopher", "http", "gemini"], "fractions": [rng.random() for _ in range(6)]}
+    jobs = [dict(job, protos=[proto]) for proto in gen.PROTOCOLS]
+    found = False
+    nitems = nfolders = 0
+    with_items = set()
+    reported = set()
+    for r in impl_run_parallel(jobs, chunks=len(jobs)):
+        if not r["ok"]:
+            raise RuntimeError(r["err"] + "\n" + r.get("tb", ""))
+        for p in r["res"]["pages"]:
+            if p["level"] == "top":
+                continue
+            proto = p["proto"]
+            chk.count(("mail", proto, p["selector"]), nontrivial=True)
+            why = judge_page(p)
+            tag = f"dead-link:{proto}"
+            if p["level"] == "folder":
+                nfolders += 1
+                folder = p["selector"]
+            else:
+                nitems += 1
+                folder = p["parent"]
+                with_items.add((proto, folder))
+                if not why:
+                    why = judge_message(p)
+                    tag = f"wrong-message:{proto}"
+            if why:
+                found = True
+                if (proto, p["level"], folder, tag) in reported:
+                    continue    # one replay per folder, protocol and kind of failure: the first item that fails
+                reported.add((proto, p["level"], folder, tag))
+                data = next((e.get("data") for e in tree if "/" + e["path"] == folder), None)
+                if data and re.search(r"^From [^\n]*[\x80-\xff]", data, re.M):
+                    tag = tag.replace(":", ":8bit-from-line:", 1)    # input class of finding D35 (stdlib mbox decodes the line as ASCII)
+                if any(e.get("unreadable") and ("/" + e["path"]).startswith(folder + "/") for e in tree):
+                    tag = tag.replace(":", ":unreadable-message:", 1)    # input class of finding D35b (a Maildir entry that cannot be opened)
+                chk.violation({"what": ("a local link advertised in a listing is not served: " if tag.startswith("dead") else
+                                        "a link of a folder listing delivers another message than the one advertised: ") + why,
+                               "protocol": proto, "listing_selector": p["parent"], "link_selector_latin1": p["selector"], "advertised_type": p["type"],
+                               "advertised_name_latin1": p["name"], "item": p["index"], "items_in_listing": p["of"],
+                               "mailbox": what.get(folder), "mailbox_file_latin1": data if data is None or len(data) < 4000 else data[:4000] + "...",
+                               "request_latin1": p["request"], "response_latin1": p["out"][:400], "log": p["log"][-3:],
+                               "tree": tree if data is None else [e for e in tree if "/" + e["path"] == folder]}, tag=tag)
+    # the generator must reach what it is meant to reach: every generated folder is listed with items in every protocol
+    missing = [(proto, f) for proto in gen.PROTOCOLS for f in what if (proto, f) not in with_items]
+    return found, {"folders": len(what), "folder_listings_followed": nfolders, "message_links_followed": nitems,
+                   "folders_without_items": ["%s %s" % m for m in missing][:20]}
+
+
 def run(tier):
     chk = Check("C05", tier)
     chk.proofs(extra_files=["Corr/K05.v"])   # [agentH]
@@ -205,6 +291,10 @@ def run(tier):
                                "listing_selector": p["parent"], "link_selector_latin1": p["selector"], "advertised_type": p["type"],
                                "request_latin1": p["request"], "response_latin1": p["out"][:300], "log": p["log"][-3:],
                                "tree": specs[wi]["tree"]}, tag=f"dead-link:{proto}")
+
+    # ---- mailbox content: two readers of one file (the listing's and the message handler's) must agree ----
+    mail_found, mail_cov = mail_leg(chk, tier)
+    found = found or mail_found
 
     # ---- maintenance histories: list (cache files get written), reorganise the tree the way an administrator does (rename or
     # move a directory or one of its ancestors, copy a subtree with its timestamps), let more than the cache lifetime pass,
@@ -269,10 +359,14 @@ def run(tier):
     chk.sample({"protocol": all_pages[0][5]["proto"], "followed_link": all_pages[0][5]["selector"],
                 "request_latin1": all_pages[0][5]["request"], "response_head": all_pages[0][5]["out"][:80]})
     chk.coverage["oracle"] = {"trees": ntrees, "links_followed": nlinks, "url_links_followed": nurl, "dead_links": bad,
-                              "exhaustive_crawl_per_tree": True, "maintenance_histories": len(sjobs), "links_followed_after_maintenance": nstage_links}
+                              "exhaustive_crawl_per_tree": True, "maintenance_histories": len(sjobs), "links_followed_after_maintenance": nstage_links,
+                              "mail_folders": mail_cov}
     chk.coverage["rule"] = ("generated trees with hostile names (spaces, reserved URL characters, non-UTF-8 bytes, HTML metacharacters), "
                             "valid UTF-8 names with invisible/format/combining/astral characters, URL: items of gophermaps and link files (local type-h links), "
-                            "mailboxes, Maildirs, gophermaps, UMN link files; histories in which directories are renamed, moved or copied between two "
+                            "mailboxes, Maildirs, gophermaps, UMN link files; mbox files and Maildirs whose content lets two readers disagree about message "
+                            "boundaries and numbering (From-lines in bodies, blank-line and line-ending conventions, unusual separators, empty messages, "
+                            "flag suffixes, dot-files, duplicate unique names): every item of every folder listing is fetched and must be the message "
+                            "its title announced; histories in which directories are renamed, moved or copied between two "
                             "visits and the cache lifetime passes; every local link reachable from / is followed in the same "
                             "protocol's request syntax, for all 9 protocol variants; each followed link is a non-trivial case")
     # ---- [agentH] correspondence K05 (request side of every protocol, urlparse, parse_qs) ----
